@@ -86,6 +86,9 @@ def _value_strategy(name):
             return st.integers(0, 5).flatmap(lambda k: st.just("/dev/null") if k == 0 else FNAME.map(lambda s: s + ".h5"))
         if name == "InitialDistFile":
             return st.integers(0, 5).flatmap(lambda k: st.just("/dev/null") if k == 0 else FNAME.map(lambda s: s + ".txt"))
+        if name == "tracking":
+            # "/dev/null" is accepted and means "no particles are tracked"; the option value itself is reported as given
+            return st.integers(0, 5).flatmap(lambda k: st.just("/dev/null") if k == 0 else FNAME)
         return FNAME
     if t == "vf4":
         return st.lists(st.one_of(st.just(0.0), st.floats(1e-5, 1e-1)), min_size=1, max_size=5).map(
